@@ -167,9 +167,9 @@ func TestVerif_C08(t *testing.T) {
 		{{"before", fmt.Sprintf("%q", validSig)}, {"before", `"bad"`}, {"before", `5`}, {"before", `null`}},
 		{{"until", fmt.Sprintf("%q", validSig)}, {"until", `"bad"`}, {"until", `5`}, {"until", `null`}},
 	}
-	k := 2
+	k := 3
 	if vkit.Thorough() {
-		k = 3
+		k = 4
 	}
 	R.Bounds["option_deviation_bound"] = k
 	var optObjs []string
